@@ -56,3 +56,11 @@ package ecs
 //@   loop 1 invariant prefix: forall k int :: 0 <= k && k < __idx ==> relations[k].target == t.components[relations[k].component.id].target
 //@   ensures  spec: result == (len(relations) == 0 || len(t.relationIDs) == 0 || tableTargetsMatch(t, relations))
 //@   modifies nothing
+
+//@ func (*table).adjustCapacity
+//@   serves C01 C11 C15
+//@   dataplane
+//@   requires cap >= t.len
+//@   ensures  cap: t.cap == cap && t.len == old(t.len)
+//@   ensures  rows: forall r uint32 :: __trigger(rowEnt(t)[r]) && (r < t.len ==> rowEnt(t)[r] == old(rowEnt(t)[r]))
+//@   modifies t.cap, rowEnt(t)[*], t.entities.pointer, t.entities.data, t.columns[*]
